@@ -20,7 +20,11 @@ RULE = ("tables of 0..N rows for Interval, Bed6, Bed12, BedGraph, NarrowPeak, Ch
         "(calls / one stream) on a plain or gzip target; 'w' writer for the first k pieces then one appending writer per piece or "
         "one appending writer fed by a stream, for every k, plain or gzip; only appending writers on a new file, a new gzip file, "
         "or an existing empty file; header-bearing formats (VCF, a delimited buffer with a column-name header) with ZERO rows in total "
-        "(one empty table, several empty pieces, a stream of empty chunks); lazily read tables re-written from row-indexed pieces; observables: the exact bytes on disk, the table read back and the number of records reported by bnp.count_entries. Non-trivial = >= 2 writes, or a "
+        "(one empty table, several empty pieces, a stream of empty chunks); lazily read tables re-written from row-indexed pieces; HEADERS THAT BELONG TO THE TABLE: in-memory tables carrying a header context of their own "
+        "(VCF / SAM / '#' comment blocks, generated per case) must be written with exactly that header, source files of the lazy ops "
+        "carry per-case headers, and in many cases ANOTHER file of the same format with another header is read lazily first and kept "
+        "alive in the same process; observables: the exact bytes on disk, the table read back, the number of records reported by bnp.count_entries, and the bytes of the write -> read (default, lazy) -> "
+        "write chain (must reproduce the first file, header included). Non-trivial = >= 2 writes, or a "
         "sequence length within 1 of a multiple of the line width, or append/gzip/stream mode")
 EXHAUSTIVE = {"quick": False, "thorough": False}
 MODEL_OPS = {"write"}
@@ -61,7 +65,9 @@ MANIFEST = {
             "after the other must give the selected source lines once each; lazily (and eagerly) read tables of every delimited "
             "format and FASTQ with EACH single field replaced, written, compared with the canonical serialisation; one eager table "
             "object written repeatedly (whole / slices / slices of slices, separate targets): every output canonical and the table "
-            "object unchanged; bnp.count_entries on every written file = the number of rows. Record markers / line offsets in Gen/C03.lean "
+            "object unchanged; the header written is the table's / the source file's own header also when other files of the format with other "
+            "headers were read before in the process (`prior`, `prior_hdr`; a '#' comment block may be left out by tables that are not "
+            "read lazily, never replaced); bnp.count_entries on every written file = the number of rows. Record markers / line offsets in Gen/C03.lean "
             "are observed on from_data / get_data, no private attribute of the package is read. Eight defects found and fixed "
             "(known_findings.json).",
     "technique": "Lean 4 proof over an executable model (induction over rows / write list / writer sessions) + constants regenerated from source + differential correspondence with the implementation",
@@ -275,6 +281,25 @@ def g_row(rng, fmt):
     return row
 
 
+CTX_FMTS = ("vcf", "vcfs", "vcf2", "sam", "bed3", "bed6", "bed12", "bdg", "narrowpeak", "sizes", "gtf", "pairs")
+
+
+def _ctx(rng, case):
+    """in-memory tables that carry a header context of their own (`set_context("header", ...)`): the file must start with
+    exactly that header; and, for the write -> read -> write chain, another file of the format with another header that
+    is read (lazily) before"""
+    fmt = case["fmt"]
+    if fmt in CTX_FMTS and rng.random() < 0.5:
+        h = g_header(rng, fmt)
+        if h:
+            case["ctx_hdr"] = h
+    if fmt in CTX_FMTS and case["rows"] and rng.random() < 0.5:
+        h = g_header(rng, fmt)
+        if h and h != case.get("ctx_hdr"):
+            case["prior_hdr"] = h
+    return case
+
+
 def compositions(n):
     """all ways of cutting n rows into non-empty successive pieces, as lists of cut positions"""
     for mask in range(2 ** max(n - 1, 0)):
@@ -303,7 +328,7 @@ def cases(tier, rng):
                             fmt = fmts[k % len(fmts)]
                             k += 1
                             rows = [g_row(rng, fmt) for _ in range(n)]
-                            yield {"op": "write", "fmt": fmt, "rows": rows, "cuts": c, "mode": mode, "first": first}
+                            yield _ctx(rng, {"op": "write", "fmt": fmt, "rows": rows, "cuts": c, "mode": mode, "first": first})
     # 2. random tables per format, random cuts
     per = {"quick": 150, "thorough": 2500, "widen": 400}[tier]
     for fmt in fmts:
@@ -324,7 +349,7 @@ def cases(tier, rng):
                 enc.append("strenc")
             if enc:
                 case["enc"] = enc
-            yield case
+            yield _ctx(rng, case)
     # 2b. lazily read, row-indexed pieces written back
     yield from rewrite_cases(tier, rng)
     yield from replace_cases(tier, rng)
@@ -334,11 +359,11 @@ def cases(tier, rng):
         for cuts in ([], [0], [0, 0], [0, 0, 0]):
             for mode in MODES:
                 for first in (range(1, len(cuts) + 2) if mode in FIRST_MODES else [1]):
-                    yield {"op": "write", "fmt": fmt, "rows": [], "cuts": list(cuts), "mode": mode, "first": first}
+                    yield _ctx(rng, {"op": "write", "fmt": fmt, "rows": [], "cuts": list(cuts), "mode": mode, "first": first})
         for n, cuts in ((3, [0, 2, 2]), (3, [0, 0, 2, 3]), (2, [0, 1, 1, 2]), (1, [0, 1])):      # [0 rows, 2 rows, 0 rows, 1 row] ...
             for mode in MODES:
                 for first in (range(1, len(cuts) + 2) if mode in FIRST_MODES else [1]):
-                    yield {"op": "write", "fmt": fmt, "rows": [g_row(rng, fmt) for _ in range(n)], "cuts": list(cuts), "mode": mode, "first": first}
+                    yield _ctx(rng, {"op": "write", "fmt": fmt, "rows": [g_row(rng, fmt) for _ in range(n)], "cuts": list(cuts), "mode": mode, "first": first})
     # 3. FASTA wrap boundaries, exhaustive around multiples of the width
     for L in [0, 1, 79, 80, 81, 159, 160, 161, 239, 240, 241] + (list(range(2, 79, 7)) if big else []):
         for L2 in [0, 1, 80, 81]:
@@ -654,6 +679,33 @@ def _impl_again(c):
         return {"err": "again:" + type(e).__name__}
 
 
+def _chain(c, BT, p, first_bytes):
+    """write -> read (default reader: lazy where the package reads lazily) -> write what was read: the second file must
+    be the first one, header included. Optionally another file of the same format with ANOTHER header is read before
+    and kept alive (`prior_hdr`)."""
+    import bionumpy as bnp
+    fmt = c["fmt"]
+    d = _tmpdir()
+    keep = None
+    try:
+        if c.get("prior_hdr"):
+            keep = _open_prior({"fmt": fmt, "prior": {"hdr": c["prior_hdr"], "write": len(c["rows"]) % 2 == 0}}, BT, d, c["rows"][:2])
+        r = bnp.open(p, buffer_type=BT)
+        try:
+            back = r.read()
+            q = os.path.join(d, "w2" + T[fmt][2])
+            with bnp.open(q, "w", buffer_type=BT) as f:
+                f.write(back)
+        finally:
+            r.close()
+            if keep:
+                keep[0].close()
+        again = open(q, "rb").read().decode("latin1")
+        return "same" if again == first_bytes else {"differs": again[:3000]}
+    except Exception as e:
+        return {"err": "chain:" + type(e).__name__}
+
+
 def impl(c):
     if c["op"] == "rewrite":
         return _impl_rewrite(c)
@@ -673,6 +725,9 @@ def impl(c):
         os.remove(p)
     try:
         tables = [_table(fmt, rows, c.get("enc", ())) for rows in _pieces(c)]
+        if c.get("ctx_hdr"):
+            for t in tables:
+                t.set_context("header", c["ctx_hdr"])
         import bionumpy.datatypes as dt
         if mode == "append0_empty":
             open(p, "wb").close()                  # an existing, empty target
@@ -703,6 +758,7 @@ def impl(c):
             import dataclasses
             out["read"] = {"n": int(len(d)), "cols": [c02._canon_col(getattr(d, f.name)) for f in dataclasses.fields(d)]}
             out["count"] = int(bnp.count_entries(p, buffer_type=BT))        # the number of records, by the counting reader
+            out["chain"] = _chain(c, BT, p, out["bytes"])
     except Exception as e:
         out["read"] = {"err": "read:" + type(e).__name__}
     return out
@@ -766,6 +822,18 @@ def ref_body(fmt, rows):
     return "".join(out)
 
 
+def _with_alt(c, body):
+    """expected file of a table that came from a source file with header H: H ++ body. The VCF header (required by the
+    format, `#CHROM` line) and the SAM header must be the source file's own, exactly once. A block of '#' comment lines
+    in front of a BED-like / GTF file is the file's own block or is left out (tables that are not read lazily - GTF
+    always - carry it only as a whole table): never anything else, in particular never the block of another file."""
+    h = _src_hdr(c)
+    exp = {"bytes": h + body}
+    if h and c["fmt"] not in ("vcfs", "sam"):
+        exp["alt"] = body
+    return exp
+
+
 def oracle(c):
     fmt = c["fmt"]
     if not _representable(fmt, c["rows"]):
@@ -775,18 +843,18 @@ def oracle(c):
         order = [i for sel in c["sel"] for i in _select(n, sel)]
         if c["how"] == "concat_twice":
             order += _select(n, c["sel"][0])
-        return {"bytes": _src_hdr(c) + ref_body(fmt, [c["rows"][i] for i in order])}
+        return _with_alt(c, ref_body(fmt, [c["rows"][i] for i in order]))
     if c["op"] == "replace":
         rows2 = [list(r) for r in c["rows"]]
         for r, v in zip(rows2, c["values"]):
             r[c["field"]] = v
         if not _representable(fmt, rows2):
             return SKIP
-        return {"bytes": _src_hdr(c) + ref_body(fmt, rows2)}
+        return _with_alt(c, ref_body(fmt, rows2))
     if c["op"] == "again":
         return {"bodies": [ref_body(fmt, c["rows"][a:b:st]) for a, b, st in c["steps"]], "unchanged": True}
     # a header (if the format has one) stands exactly once in front as soon as one write call was made
-    return {"body": ref_body(fmt, c["rows"]), "headers": 1 if (fmt in HAS_HEADER and n_calls(c) > 0) else 0}
+    return {"body": ref_body(fmt, c["rows"]), "headers": 1 if ((fmt in HAS_HEADER or c.get("ctx_hdr")) and n_calls(c) > 0) else 0}
 
 
 def _expected_read(c):
@@ -851,6 +919,8 @@ def _agree_replace(c, text, want):
     _, wbody = _strip_src_header(fmt, want)
     if fmt == "vcfs" and len(re.findall(r"(^|\n)#CHROM\t", head)) != 1:
         return False
+    if fmt != "vcfs" and head not in ("", _src_hdr(c)):          # never a header block from somewhere else
+        return False
     la, lb = body.split("\n"), wbody.split("\n")
     if len(la) != len(lb):
         return False
@@ -880,12 +950,17 @@ def agree(c, got, exp):
     if not isinstance(got, dict) or "bytes" not in got:
         return False
     if c["op"] == "rewrite":
-        return got["bytes"] == exp["bytes"]
+        return got["bytes"] == exp["bytes"] or ("alt" in exp and got["bytes"] == exp["alt"])
     if c["op"] == "replace":
-        return _agree_replace(c, got["bytes"], exp["bytes"])
+        return _agree_replace(c, got["bytes"], exp["bytes"]) or ("alt" in exp and _agree_replace(c, got["bytes"], exp["alt"]))
     fmt = c["fmt"]
     text = got["bytes"]
-    if fmt in HAS_HEADER:
+    if c.get("ctx_hdr"):
+        # the table carries its own header: the file is exactly that header (once, iff a write call was made) ++ the records
+        if text != (c["ctx_hdr"] if exp["headers"] else "") + exp["body"]:
+            return False
+        body = exp["body"]
+    elif fmt in HAS_HEADER:
         head, body = _split_header(text, fmt)
         n_hdr = len(re.findall(r"(^|\n)#CHROM\t", head)) if fmt not in CSV_HEADERS else len(head) // len(CSV_HEADERS[fmt])
         if n_hdr != exp["headers"] or (exp["headers"] == 0 and head):
@@ -899,6 +974,8 @@ def agree(c, got, exp):
     if not c["rows"]:
         return True
     if got.get("count") != len(c["rows"]):
+        return False
+    if got.get("chain") != "same":
         return False
     return c02._same(got.get("read"), c02._conv(_expected_read(c)))
 
@@ -939,6 +1016,8 @@ def model_request(c):
            "sessions": [{"m": m, "s": st, "k": k} for m, st, k in sessions(c)]}
     if fmt in CSV_HEADERS:
         req["hdr"] = CSV_HEADERS[fmt]
+    if c.get("ctx_hdr"):
+        req["hdr"] = c["ctx_hdr"]
     return req
 
 
@@ -974,6 +1053,11 @@ def finding_key(c, got, exp):
         return f"{fmt}:write-raises"
     if isinstance(got, dict) and isinstance(got.get("read"), dict) and "err" in got["read"]:
         return f"{fmt}:read-back-raises"
+    if isinstance(got, dict) and "bytes" in got and c.get("ctx_hdr") and \
+            got["bytes"] != (c["ctx_hdr"] if exp["headers"] else "") + exp["body"] and got["bytes"].endswith(exp["body"]):
+        return f"{fmt}:header-context:{c['mode']}"
+    if isinstance(got, dict) and got.get("chain", "same") != "same":
+        return f"{fmt}:write-read-write:{'raises' if 'err' in got['chain'] else 'bytes-differ'}"
     if isinstance(got, dict) and "bytes" in got:
         text = got["bytes"]
         body = _split_header(text, fmt)[1] if fmt in HAS_HEADER else text
